@@ -245,7 +245,7 @@ func c12Ops() []string {
 			}
 		}
 		ops = append(ops, fmt.Sprintf("scribble-input:m%d", mi), fmt.Sprintf("config-scribble:m%d", mi), fmt.Sprintf("reconfigure-scribble:m%d", mi), fmt.Sprintf("roundtrip-scribble:m%d", mi),
-			fmt.Sprintf("edit-resubmit:m%d", mi), fmt.Sprintf("detour:m%d", mi))
+			fmt.Sprintf("edit-resubmit:m%d", mi), fmt.Sprintf("detour:m%d", mi), fmt.Sprintf("wrap-while-passthrough:m%d", mi))
 	}
 	return ops
 }
@@ -258,7 +258,7 @@ func c12ReducedOps(thorough bool) []string {
 		ops = append(ops, fmt.Sprintf("serve:m%d:r2:scribble", mi), fmt.Sprintf("serve:m%d:r1:scribble", mi),
 			fmt.Sprintf("scribble-input:m%d", mi), fmt.Sprintf("config-scribble:m%d", mi), fmt.Sprintf("reconfigure-scribble:m%d", mi), fmt.Sprintf("edit-resubmit:m%d", mi), fmt.Sprintf("detour:m%d", mi))
 		if thorough {
-			ops = append(ops, fmt.Sprintf("serve:m%d:r7:scribble-preset", mi), fmt.Sprintf("roundtrip-scribble:m%d", mi))
+			ops = append(ops, fmt.Sprintf("serve:m%d:r7:scribble-preset", mi), fmt.Sprintf("roundtrip-scribble:m%d", mi), fmt.Sprintf("wrap-while-passthrough:m%d", mi))
 		}
 	}
 	return ops
@@ -284,6 +284,20 @@ func (w *c12World) apply(op string) error {
 		// the caller owns the response header map after the call for non-preflight requests
 	case "scribble-input":
 		scribbleConfig(&w.inputs[mi])
+	case "wrap-while-passthrough":
+		// the middleware is made a passthrough one, a handler is obtained from Wrap and serves the probes, and the
+		// middleware gets its configuration (and debug mode) back: the probes of every later step go through that handler
+		dbg := mi == 1 || mi == 2
+		if err := w.m[mi].Reconfigure(nil); err != nil {
+			return err
+		}
+		rewrapLongLived(w.m[mi], mi%2)
+		observe(w.m[mi], c12Probes())
+		own := w.lits[mi].Config()
+		if err := w.m[mi].Reconfigure(&own); err != nil {
+			return err
+		}
+		w.m[mi].SetDebug(dbg)
 	case "config-scribble":
 		scribbleConfig(w.m[mi].Config())
 	case "reconfigure-scribble":
